@@ -11,6 +11,7 @@ CONSTANTS
  DevIgnoreCompleteErr = FALSE
  DevNegAck = TRUE
  DevEmptyAck = FALSE
+ DevDupParts = FALSE
 INIT Init
 NEXT Next
 INVARIANTS C32_Stored C32_Acked
